@@ -90,8 +90,18 @@ Fixpoint csv_rows (rows : list (list string)) (header : list string) (time_idx :
       end
   end.
 
+(** csvdata.lstrip("\r\n").rstrip(): line breaks are dropped in front (leading spaces belong to the first column
+    name), all white space at the end *)
+Definition is_crlf (c : ascii) : bool := (ascii_Z c =? 10) || (ascii_Z c =? 13).
+Fixpoint lstrip_lines (s : string) : string :=
+  match s with
+  | String a r => if is_crlf a then lstrip_lines r else s
+  | EmptyString => EmptyString
+  end.
+Definition csv_strip (s : string) : string := rstrip (lstrip_lines s).
+
 Definition csv_parse (tid file text : string) : presult trace :=
-  match ssplit_char (ch 10) (strip text) with
+  match ssplit_char (ch 10) (csv_strip text) with
   | [] => PErr EOther
   | hline :: lines =>
       let header := ssplit_char ","%char hline in
